@@ -89,6 +89,55 @@ CHECKS = {
         'Print Assumptions: closed under the global context.',
    technique='Coq proofs about the writer model + tree-equality correspondence + independent reader',
    design='DESIGN.md §3 C06'),
+ 'C01': dict(
+   text='Machine-checked proof (Coq), PARTIAL: for every code-point list written as a string or URI by the model of the ZINC dumper, the model of the reader\'s WHOLE per-version scalar alternation '
+        '(pyparsing Or = longest match over 13 / 18 alternatives) returns that string / URI and exactly the text that followed it; text is always writable; non-finite numbers; document framing. '
+        'All other kinds, rows, metadata, nested values, multi-grid documents and both versions are decided by the tie (writer model = hszinc.dump text, reader model = hszinc.parse value, on generated grids) '
+        'and by the round-trip search on the implementation with a kind-strict comparator.',
+   note='PARTIAL: no induction over whole grids is proved. Numbers are CPython text tokens (str(float) / float() are oracles), date-times are compared by instant, offset and zone name through pytz as oracle. '
+        'pyparsing itself is modelled by typed combinators (Or = longest match, first on ties; parse actions; no implicit whitespace skipping as hszinc configures it). Print Assumptions: closed under the global context.',
+   technique='Coq proof about combinator model of the pyparsing grammar + extracted-model correspondence (dump text, parse value) + round-trip search',
+   design='DESIGN.md §3 C01'),
+ 'C03': dict(
+   text='Machine-checked proof (Coq), PARTIAL: final newline optional for every document, empty input gives no grid, LF and CRLF line ends, z/Z, the string / URI literal with every legal escape followed by anything; '
+        'further spellings as evaluated examples. Decided otherwise by the reader model vs hszinc.parse on documents of an independent grammar-directed ZINC writer (value x independently chosen spelling: blanks around commas, '
+        'empty cells, _ separators, exponents, INF/-INF/NaN, every escape form, CRLF, trailing commas, T/t, Z/z, with / without zone name and final newline), str and bytes in several charsets, single flag.',
+   note='PARTIAL (see text). The independent writer is harness code (harness/props/c03.py). Charset decoding is CPython\'s. Print Assumptions: closed under the global context.',
+   technique='Coq lemmas about the reader model + correspondence and search on independently written documents',
+   design='DESIGN.md §3 C03'),
+ 'C04': dict(
+   text='Machine-checked proof (Coq), PARTIAL: every dumped grid starts with ver:"X" (X the escaped version text); a written string holds only characters >= U+0020, only escapes the grammar accepts, and is accepted '
+        'by the literal rule exactly up to its own closing quote; non-finite numbers are INF, -INF, NaN; 3.0-only kinds are refused under a pre-3.0 version. Line / cell layout and grammar conformance of whole documents '
+        'are judged on every dumped grid by an independent recursive-descent ZINC reader written from the Haystack grammar (harness/zincspec.py, shares no code with hszinc), which must recover the same grid.',
+   note='PARTIAL: the one-line-per-row layout is not proved in Coq. The independent reader is harness code. Print Assumptions: closed under the global context.',
+   technique='Coq proofs about the writer model + text-equality correspondence + independent reader',
+   design='DESIGN.md §3 C04'),
+ 'C07': dict(
+   text='Machine-checked proof (Coq), PARTIAL: on text (every code-point list as Str and Uri) each format\'s reader after its writer is the identity, both writers are total, hence any chain of transcodings is lossless '
+        'and parse-then-dump is idempotent character for character. All other kinds, parser-made objects (fixed-offset tzinfo, non-official versions), purity and determinism of dump are decided by the search on the implementation: '
+        'documents of the independent ZINC and JSON writers pushed through parse -> dump (both formats) -> parse -> dump, ZINC->JSON->ZINC and JSON->ZINC->JSON, deep snapshot before / after, two dumps compared.',
+   note='PARTIAL (see text). Values a JSON document can carry but ZINC cannot spell (Bin payload / unit / Ref name outside the ZINC alphabets) are outside the shared Haystack value domain and are skipped (counted in the evidence). '
+        'One known finding: a zone-less date-time whose offset no mapped zone has cannot be re-dumped (KNOWN_FINDINGS.json). Print Assumptions: closed under the global context.',
+   technique='Coq composition of the codec lemmas + search over independently written documents',
+   design='DESIGN.md §3 C07'),
+ 'C08': dict(
+   text='Machine-checked proof (Coq) for EVERY code-point list, in the string and the URI alphabet: the writer\'s escaping is total; its output holds no character below U+0020 and no unescaped quote; the reader\'s literal rule '
+        'consumes exactly the written literal whatever follows and returns the original text; escaping is injective. Proved by a computation inside Coq over all 65536 code points below 2^16 lifted by a bound lemma above, over the '
+        'escape tables REGENERATED from hszinc/zincdumper.py on every run. Tied by the extracted escaper / literal reader vs zincdumper.dump_str / dump_uri / zincparser.hs_str / hs_uri on every payload; the search puts every payload '
+        'in 9 text-carrying positions x both formats of a two-grid document and compares grids, rows, cells, neighbours and payload.',
+   note='JSON positions: containment is json.dumps / json.loads (CPython, outside the model) plus the prefix lemmas of C02 (payload verbatim after the prefix). thorough is exhaustive over U+0000..U+10FFFF in the tie and the str-cell '
+        'position and over all strings up to length 3 of a 28-character metacharacter alphabet. A high surrogate directly followed by a low one is not a code-point sequence and is not generated. Print Assumptions: closed under the global context.',
+   technique='Coq proof (finite sweep by vm_compute lifted by forallb/bound lemmas, induction over the string) over regenerated tables + exhaustive correspondence',
+   design='DESIGN.md §3 C08'),
+ 'C09': dict(
+   text='Machine-checked proof (Coq) about the model of the ZINC reader (every pyparsing rule with its parse action, parse_grid / parse_scalar / parser.parse exception handling): for EVERY text grid / document parsing '
+        'returns grids or raises ZincParseException; every parse action at every nesting depth raises ValueError only, so scalar parsing raises only ValueError-family exceptions; the un-escaping of string / URI literals never raises; '
+        'a missing or malformed version header, an unterminated string / URI, and [ { < under version 2.0 are always rejected. Termination is Coq\'s totality of the model. Tied by the reader model vs the implementation on seeds, '
+        'byte-level mutations at every position, 42 structurally broken documents and arbitrary strings; the search checks exception class, line / column bounds and rejection on the implementation.',
+   note='PARTIAL: the model\'s OutOfFuel marker is not excluded by proof (fuel = length of the text + 2; every nesting level consumes a bracket) - an OutOfFuel answer is reported as a correspondence break. '
+        'Line / column of the exception are checked on the implementation only. RecursionError for very deep nesting is outside the quantifier (depth <= 3). Print Assumptions: closed under the global context.',
+   technique='Coq proof (exception-safety predicate closed under the parser combinators, induction on nesting fuel) + mutation-based correspondence',
+   design='DESIGN.md §3 C09'),
 }
 PENDING = {}
 for i in range(1, 21):
